@@ -165,4 +165,39 @@ theorem parseLines_renderLines (w : Nat) (hw : 0 < w) (rs : List Rec) (h : ∀ r
     parseLines (renderLines w rs) = rs := by
   simp [parseLines, parse_render_aux w hw rs h]
 
+theorem chunks_no_nl (w : Nat) (s : List Char) (h : '\n' ∉ s) : ∀ l ∈ chunks w s, '\n' ∉ l := by
+  intro l hl hc
+  exact h (chunks_mem_sub w s l hl _ hc)
+
+/-- file level: the text written by the FASTA writer (any width ≥ 1), read back, gives the records -/
+theorem parseFasta_renderFasta (w : Nat) (hw : 0 < w) (rs : List Rec) (h : ∀ r ∈ rs, r.WF)
+    (hd : ∀ r ∈ rs, '\n' ∉ r.desc) : parseFasta (renderFasta w rs) = rs := by
+  have hnl : ∀ l ∈ renderLines w rs, '\n' ∉ l := by
+    intro l hl
+    simp only [renderLines, List.mem_flatMap] at hl
+    obtain ⟨r, hr, hl⟩ := hl
+    have hwf := h r hr
+    simp only [renderRec, List.mem_cons] at hl
+    cases hl with
+    | inl e =>
+      subst e
+      intro hc
+      simp only [headerLine, List.mem_cons, List.mem_append] at hc
+      rcases hc with hc | hc | hc
+      · exact absurd hc (by decide)
+      · have := hwf.name_nonblank _ hc
+        simp [isBlank] at this
+      · split at hc
+        · simp at hc
+        · simp only [List.mem_cons] at hc
+          rcases hc with hc | hc
+          · exact absurd hc (by decide)
+          · exact hd r hr hc
+    | inr hl =>
+      apply chunks_no_nl w r.seq _ l hl
+      intro hc
+      have := (hwf.seq_chars _ hc).1
+      simp [isBlank] at this
+  simp only [parseFasta, renderFasta, fileLines_unlines _ hnl, parseLines_renderLines w hw rs h]
+
 end EaselModel.Miniapps
